@@ -92,6 +92,10 @@ func genReloadScenario(t *rapid.T) Scenario {
 			gen.Reloads = append(gen.Reloads, ReloadSpec{AtMs: at, Variant: rapid.SampledFrom([]string{"valid", "valid", "valid", "valid", "valid", "valid", "invalid", "incompatible", "shifted", "moreoutputs", "maxfields", "inputs", "orchtype", "renamed", "metrickey-overlap", "metrickey-duplicate", "metrickey-unknown"}).Draw(t, "variant")})
 		}
 		gen.StopAfter = rapid.SampledFrom([]int{0, 5, 30, 120}).Draw(t, "stopAfter")
+		if rapid.IntRange(0, 2).Draw(t, "reloadAtStop") == 0 {
+			// one more reload request that races with the stop request (SIGHUP shortly before / after SIGTERM)
+			gen.ReloadAtStopUs = rapid.SampledFrom([]int{-3000, -1000, -500, -200, -50, 1, 50, 200, 500, 1000, 3000}).Draw(t, "reloadAtStopUs")
+		}
 		sc.Gens = append(sc.Gens, gen)
 	}
 	final := Generation{StopAfter: 1500}
@@ -152,9 +156,20 @@ func runReload(sc Scenario) (res vh.Result) {
 	add(queued, "chunks-queued-at-a-stop")
 	add(takeover, "queued-chunks-to-take-over-at-a-successful-reload")
 	add(len(o.Reloads) > 1, "several-reloads")
+	for _, g := range sc.Gens {
+		if g.ReloadAtStopUs != 0 {
+			add(true, "reload-request-racing-with-the-stop-request")
+			break
+		}
+	}
 	res.NonTrivial = len(o.Reloads) > 0 && during
 	agentErrors := vh.Logs.Take()
-	res.Violation = CheckC17(o)
+	if os.Getenv("VERIF_PROPERTY") == "C18" {
+		// ./check C18 runs this layer for the stops that coincide with a reload request: bounded stop, nothing only in memory
+		res.Violation = CheckC18(o)
+	} else {
+		res.Violation = CheckC17(o)
+	}
 	if res.Violation == nil && os.Getenv("VERIF_PROPERTY") == "C05" {
 		res.Violation = CheckC05(o) // the ordering oracle on the same scenarios (./check C05 runs this layer as well)
 	}
@@ -173,6 +188,6 @@ func runReload(sc Scenario) (res vh.Result) {
 func TestE2EReload(t *testing.T) {
 	vh.Run(t, vh.Spec[Scenario]{
 		Name: "e2e-reload", Gen: genReloadScenario, Run: runReload, Quick: 10, Thorough: 250, Journal: true, ShrinkSeconds: 30,
-		Rule: "the real agent started through run.Reloader (TCP listener, ReloadableOrchestrator, pipelines, hybrid buffers, Forward clients; scaled defs) with 1-2 generations of 1-5 staggered client connections x 1-30 stamped records with pauses, faulty or healthy upstreams, and 1-3 reloads per generation at generated moments of the traffic (hook H4 = the SIGHUP handler's reload()) with a valid (extra transform + schema field), an invalid or an incompatible (other orchestration keys, schema fields moved by a new field in front, another schema/maxFields, a changed inputs section, another orchestration type, a renamed input field, metric keys that overlap the orchestration keys, repeat or name no field) new configuration file; oracle = C01's no-loss/no-alteration oracle over the whole scenario, every reload counted once under the right status, no effect of a rejected reload (no record carries the new transform's field, tags unchanged), the new configuration in effect for every connection opened after a successful reload returned, and every queue directory that holds chunk files right after a successful reload has a pipeline in the new pipeline set (its buffer gauges exist); non-trivial = at least one reload after a connection was opened",
+		Rule: "the real agent started through run.Reloader (TCP listener, ReloadableOrchestrator, pipelines, hybrid buffers, Forward clients; scaled defs) with 1-2 generations of 1-5 staggered client connections x 1-30 stamped records with pauses, faulty or healthy upstreams, and 1-3 reloads per generation at generated moments of the traffic (hook H4 = the SIGHUP handler's reload()) with a valid (extra transform + schema field), an invalid or an incompatible (other orchestration keys, schema fields moved by a new field in front, another schema/maxFields, a changed inputs section, another orchestration type, a renamed input field, metric keys that overlap the orchestration keys, repeat or name no field) new configuration file; in a third of the generations one more reload request is triggered 3 ms before to 3 ms after the stop request; oracle = C01's no-loss/no-alteration oracle over the whole scenario, every reload counted once under the right status, no effect of a rejected reload (no record carries the new transform's field, tags unchanged), the new configuration in effect for every connection opened after a successful reload returned, and every queue directory that holds chunk files right after a successful reload has a pipeline in the new pipeline set (its buffer gauges exist); non-trivial = at least one reload after a connection was opened",
 	})
 }
